@@ -761,7 +761,7 @@ namespace xsimd
         template <class A>
         XSIMD_INLINE void transpose(batch<uint16_t, A>* matrix_begin, batch<uint16_t, A>* matrix_end, requires_arch<generic>) noexcept
         {
-            transpose(reinterpret_cast<batch<int16_t, A>*>(matrix_begin), reinterpret_cast<batch<int16_t, A>*>(matrix_end), A {});
+            detail::transpose_as<int16_t>(matrix_begin, matrix_end);
         }
 
         template <class A, class = typename std::enable_if<batch<int8_t, A>::size == 16, void>::type>
@@ -851,7 +851,28 @@ namespace xsimd
         template <class A>
         XSIMD_INLINE void transpose(batch<uint8_t, A>* matrix_begin, batch<uint8_t, A>* matrix_end, requires_arch<generic>) noexcept
         {
-            transpose(reinterpret_cast<batch<int8_t, A>*>(matrix_begin), reinterpret_cast<batch<int8_t, A>*>(matrix_end), A {});
+            detail::transpose_as<int8_t>(matrix_begin, matrix_end);
+        }
+
+        namespace detail
+        {
+            // The rows are copied into batches of the other element type and back (bitwise_cast, no code generated):
+            // accessing them through a pointer to an unrelated batch type breaks the aliasing rules, and the
+            // optimiser then reorders the caller's row stores against the loads of the kernel.
+            template <class U, class A, class T>
+            XSIMD_INLINE void transpose_as(batch<T, A>* matrix_begin, batch<T, A>* matrix_end) noexcept
+            {
+                static_assert(sizeof(U) == sizeof(T), "same lane width");
+                constexpr std::size_t n = batch<T, A>::size;
+                assert((matrix_end - matrix_begin == n) && "correctly sized matrix");
+                (void)matrix_end;
+                batch<U, A> rows[n];
+                for (std::size_t i = 0; i < n; ++i)
+                    rows[i] = ::xsimd::bitwise_cast<U>(matrix_begin[i]);
+                transpose(rows, rows + n, A {});
+                for (std::size_t i = 0; i < n; ++i)
+                    matrix_begin[i] = ::xsimd::bitwise_cast<T>(rows[i]);
+            }
         }
 
     }
